@@ -258,7 +258,71 @@ def make_judges(ctx):
             ctx.floor_hit(('resize-wrap',))
             if wide_exact:
                 ctx.floor_hit(('resize-wrap-wide',))
-    return [store_judge, register_judge, resize_judge]
+    RED = {'sum': np.sum, 'cumsum': np.cumsum, 'max': np.max, 'min': np.min, 'fxp_max': np.max, 'fxp_min': np.min, 'sort': np.sort, 'transpose': np.transpose,
+           'diagonal': np.diagonal, 'trace': np.trace, 'prod': np.prod, 'dot': np.dot}
+
+    Fxp = ctx.mon.Fxp
+
+    def reduce_register_judge(ev):
+        """results of the one-variable functions and of dot stored into a wrap register (out= / out_like=): exact result modulo 2^n_word, whenever the
+        register's grid holds the exact result (no rounding involved)"""
+        if ev.op not in RED or ev.kind not in ('function', 'method'):
+            return
+        kw = dict(ev.kwargs)
+        tgt_obj = kw.pop('out', None)
+        like = False
+        if tgt_obj is None:
+            tgt_obj = kw.pop('out_like', None)
+            like = True
+        if isinstance(tgt_obj, (tuple, list)):
+            tgt_obj = tgt_obj[0] if tgt_obj else None
+        if not isinstance(tgt_obj, Fxp) or set(kw) - {'axis', 'offset'}:
+            return
+        snaps = {id(o): p for o, p in zip(ev.operands, ev.pre)}
+        t = snaps.get(id(tgt_obj))
+        fargs = ((ev.receiver,) + tuple(ev.args)) if ev.kind == 'method' else tuple(ev.args)
+        ops = [snaps.get(id(a)) for a in fargs if isinstance(a, Fxp)]
+        if t is None or not A.usable(t) or t.overflow != 'wrap' or not ops or any(o is None or not A.usable(o) for o in ops) or len(ops) != len(fargs):
+            return
+        n = t.n_word
+        if not (1 <= n <= 52 or n in (64, 65, 96, 128)):
+            ctx.skip('register:target word outside the listed widths')
+            return
+        if not t.signed and any(o.signed for o in ops):
+            ctx.skip('register:signed into unsigned target is rejected')
+            return
+        try:
+            exact = RED[ev.op](*[A.fr_array(o) for o in ops], **kw)
+        except Exception:
+            ctx.skip('register:the exact evaluation itself raised (argument error)')
+            return
+        exf, shape = A.flat(exact)
+        xs = [e * F(2) ** t.n_frac for e in exf]
+        if not exf or any(x.denominator != 1 for x in xs):
+            ctx.skip('register:rounding involved in a reduction')
+            return
+        if n <= 52 and any(abs(x) >= 2 ** 62 for x in xs):
+            ctx.skip('register:exact result outside the input domain')
+            return
+        if ev.exc is not None:
+            ctx.violation('raises', 'register %s raised %s: %s' % (ev.op, type(ev.exc).__name__, str(ev.exc)[:160]), ev, key='wrap.raises')
+            return
+        res = ev.result_snap
+        if res is None or res.fmt() != t.fmt():
+            ctx.violation('format', 'register %s: result format %s, target %s' % (ev.op, res and R.dtype_fxp(*res.fmt()), R.dtype_fxp(*t.fmt())), ev)
+            return
+        exp = [R.wrap(x.numerator, t.signed, n) for x in xs]
+        lo, hi = R.code_range(t.signed, n)
+        wrapped = any(not (lo <= x.numerator <= hi) for x in xs)
+        if res.codes != exp:
+            j = next(j for j, (a_, b_) in enumerate(zip(res.codes, exp)) if a_ != b_)
+            ctx.violation('register', '%s(%s) into %s/wrap via %s: exact raw result %d -> register value %d, library %r' % (
+                ev.op, ', '.join(R.dtype_fxp(*o.fmt()) for o in ops), R.dtype_fxp(*t.fmt()), 'out_like' if like else 'out', xs[j].numerator, exp[j], res.codes[j]), ev)
+        big = max(abs(x.numerator) for x in xs).bit_length() > 62
+        ctx.judged(('register-function', ev.op, 'out_like' if like else 'out', 's' if t.signed else 'u', G.word_class(n), wrapped, big), wrapped or big, None, elements=len(xs))
+        if wrapped or big:
+            ctx.floor_hit(('register-function', 'dot' if ev.op == 'dot' else 'one-variable'))
+    return [store_judge, register_judge, resize_judge, reduce_register_judge]
 
 
 def _raw_bits(ai, exact_values):
@@ -305,7 +369,8 @@ def _pyint_carrier(c):
 def floors(tier):
     return [('wide', n) for n in WIDE] + [('core', s, r) for s in 'su' for r in G.ROUNDINGS] + \
            [('register', op, way) for op in ('add', 'sub', 'mul') for way in ('out', 'same')] + [('resize-wrap',), ('register-rounded',)] + \
-           [('wide-from-fixed-point', True), ('wide-from-fixed-point', False), ('resize-wrap-wide',), ('register-wide-upshift',), ('register-uu-coarser-subtrahend',)]
+           [('wide-from-fixed-point', True), ('wide-from-fixed-point', False), ('resize-wrap-wide',), ('register-wide-upshift',), ('register-uu-coarser-subtrahend',),
+            ('register-function', 'dot'), ('register-function', 'one-variable')]
 
 
 # ------------------------------------------------------------------------------------------ workload
@@ -549,6 +614,36 @@ def run_case(case, ctx):
                         if cp is not None:
                             cp.config.overflow = 'wrap'
                             _try(lambda: cp.resize(sreg_, n, nfreg))
+        # results of the one-variable functions and of dot written to wrap registers: wide ones with more fraction bits (the raw result is shifted up
+        # past 2^63), short ones that the exact result wraps around in; dot with operands of mixed signedness
+        if qxq_digit == 1 or wide:
+            wv = rng.choice([16, 24, 28, 29, 32, 40, 62, 63])     # (28 / 29: mixed-sign dot products of 54..61 bits; 62 / 63: sums that leave 64 bits)
+            sv = rng.random() < 0.6
+            lv, hv = R.code_range(sv, wv)
+            vcodes = [rng.choice([lv, hv, rng.randint(lv, hv), rng.randint(lv, hv) | 1]) for _ in range(4)]
+            fv = rng.choice([0, 0, 2])
+            xv = Fxp(np.array(vcodes), sv, wv, fv, raw=True)
+            xm = Fxp(np.array(vcodes).reshape(2, 2), sv, wv, fv, raw=True)
+            if wide:
+                nreg2, freg2 = n, min(n, fv + rng.randint(max(1, 60 - wv), 66))
+            else:
+                nreg2, freg2 = rng.choice([8, 16, 24, 32]), fv
+            def reg2(sg=True):
+                return Fxp(None, sg or sv, nreg2, freg2, overflow='wrap')
+            for fn in (fm.sum, fm.cumsum, fm.fxp_max, fm.fxp_min, fm.sort):
+                _try(lambda: fn(xv, out=reg2()))
+                _try(lambda: fn(xv, out_like=reg2(rng.random() < 0.5)))
+            _try(lambda: xv.sum(out=reg2()))
+            _try(lambda: xm.sum(axis=0, out_like=reg2()))
+            _try(lambda: fm.transpose(xm, out=Fxp(np.zeros((2, 2)), True, nreg2, freg2, overflow='wrap')))
+            _try(lambda: fm.diagonal(xm, out_like=reg2()))
+            _try(lambda: fm.trace(xm, out=reg2()))
+            yv = Fxp(np.array([rng.choice([lv, hv, rng.randint(lv, hv)]) for _ in range(4)]) if sv else np.array([rng.randint(0, hv) for _ in range(4)]), not sv if wv <= 32 else sv, wv, 0, raw=True, overflow='wrap') \
+                if rng.random() < 0.7 else Fxp(np.array(vcodes), sv, wv, 0, raw=True)
+            if 2 * fv <= freg2 or True:
+                _try(lambda: fm.dot(xv, yv, out=Fxp(None, True, nreg2, max(freg2, fv), overflow='wrap')))
+                _try(lambda: fm.dot(yv, xv, out_like=Fxp(None, True, nreg2 if nreg2 >= 16 else 16, fv, overflow='wrap')))
+                _try(lambda: xv.dot(yv, out=Fxp(None, True, 32, fv, overflow='wrap')))
         # accumulate in place
         acc = mk(a, op_sizing='same')
         for _ in range(3):
